@@ -13,9 +13,13 @@ def run(prog, chk):
     chk.not_decided = ["numeric boundary of the level comparison (< vs <=)", "memcmp semantics (libc)"]
     chk.rule("C02.certificate", "every OK path of a verifying policy satisfies the document-binding formula", floor=6)
     chk.rule("C02.verdicts", "verdict tables of the document rules (GEN-01, GEN-03, GEN-04)", floor=5)
+    chk.rule("C02.guards", "guard tables of the document rules: supplied hash vs input hash (RFC3161 input hash for legacy signatures), level vs first level correction", floor=5)
     for pol in CERT.VERIFYING:
         PC.check_certificate(prog, chk, "C02.certificate", pol, CERT.DOCUMENT, "document binding")
     from ksirules.policy import PFX
     PC.check_verdicts(prog, chk, "C02.verdicts", [PFX + r for r in (
+        "DocumentHashDoesNotExist", "DocumentHashExistence", "InputHashAlgorithmVerification", "DocumentHashVerification",
+        "AggregationChainInputLevelVerification")])
+    PC.check_guards(prog, chk, "C02.guards", [PFX + r for r in (
         "DocumentHashDoesNotExist", "DocumentHashExistence", "InputHashAlgorithmVerification", "DocumentHashVerification",
         "AggregationChainInputLevelVerification")])
